@@ -217,6 +217,12 @@ fn main() {
             println!("{}", serde_json::to_string(&rep).unwrap());
             code
         }
+        "hashfile-unpriv" => {
+            let path = arg_val(&args, "--path").unwrap_or_else(|| "/etc/passwd".into());
+            let (code, rep) = c12file::unprivileged(&path);
+            println!("{}", serde_json::to_string(&rep).unwrap());
+            code
+        }
         "hashfile-one" => {
             println!("{}", c12file::one(&arg_val(&args, "--path").unwrap_or_else(|| harness_error("--path"))));
             0
